@@ -289,7 +289,7 @@ def avx2_jobs(seed=0):
         # registered lengths: those that decide well inside the time limit on a loaded machine (the obligation is a multiplier
         # equivalence per row; measured: a*a ell <= 4 7 min, b*c ell <= 3 12 min, b*b only the empty product, block forms ell <= 1)
         ok_ells = {0: [0, 1, 2, 3, 4], 1: [0], 2: [0, 1, 2, 3], 3: [0, 1], 4: [0, 1]}[prod]
-        quick_ells = {0: [0, 3], 1: [0], 2: [0, 1], 3: [0], 4: [0]}[prod]
+        quick_ells = {0: [0, 3], 1: [0], 2: [0], 3: [0], 4: [0]}[prod]
         for ell in ok_ells:
             for row in range(rows):
                 for lane in range(4):
